@@ -246,6 +246,7 @@ func (l *lexer) run() {
 				l.col += w
 				l.ignore()
 				l.inVerbatim = false
+				continue // re-examine the input right after the end marker
 			}
 		} else if strings.HasPrefix(l.input[l.pos:], "{% verbatim %}") { // tag
 			if l.pos > l.start {
@@ -256,6 +257,7 @@ func (l *lexer) run() {
 			l.pos += w
 			l.col += w
 			l.ignore()
+			continue // the body may be empty: test for the end marker first
 		}
 
 		if !l.inVerbatim {
